@@ -311,7 +311,10 @@ fn c03_eval(case: &C03Case, rep: &Report, singles: bool) -> Result<(), Fail> {
                     }
                     let detail = format!("inserted [{label}] script_data {}: baseline {} vs with passes {}", hex::encode(d), b.to_json(), o.to_json());
                     // recorded finding (same root cause as C02's): trapping arithmetic whose result is unused is removed
-                    let dead_trap = !no_trap && abort_class(&b.end) == "arith" && o.logs.len() >= b.logs.len() && o.logs[..b.logs.len()] == b.logs[..];
+                    // (either side may be the one that still executes the dead operation: e.g. misc-demotion turns a dead u256
+                    // addition into a wide op writing memory, which the tail's DCE keeps, while the baseline drops it)
+                    let continues_past = |stops: &Outcome, goes_on: &Outcome| abort_class(&stops.end) == "arith" && goes_on.logs.len() >= stops.logs.len() && goes_on.logs[..stops.logs.len()] == stops.logs[..];
+                    let dead_trap = !no_trap && (continues_past(b, &o) || continues_past(&o, b));
                     if dead_trap {
                         rep.class("known:dead-arithmetic-abort-eliminated");
                         let v = mk(SIG03_DEAD_TRAP, detail);
@@ -644,7 +647,7 @@ pub fn run_c04(ctx: &Ctx) {
     rep.assume("corpus .ir files that do not parse or that the verifier (with SSA dominance) rejects before any pass are not valid inputs and are skipped (counted)");
     let corpus = ir_corpus();
     rep.class_n("corpus:files", corpus.len() as u64);
-    let cases = ctx.cases(6000, 200_000);
+    let cases = ctx.cases(4000, 200_000);
     crate::progprops::spawn_watchdog("C04");
     let out = run_prop(ctx, 4, cases, c04_strategy, |case| {
         crate::progprops::in_flight_set(Some(&describe_c04(case, &corpus)));
@@ -924,7 +927,7 @@ pub fn run_c05(ctx: &Ctx) {
     rep.assume("'identical text' is read up to the printer's own numbering of anonymous values and metadata (names derive from arena keys, which the text format cannot preserve); the strict byte-for-byte fixpoint is demanded from the second print on");
     rep.assume("the re-parsed context has no panic-occurrence tables; generated programs do not use `panic`");
     let corpus = ir_corpus();
-    let cases = ctx.cases(2500, 100_000);
+    let cases = ctx.cases(2000, 100_000);
     crate::progprops::spawn_watchdog("C05");
     let out = run_prop(ctx, 5, cases, c05_strategy, |case| {
         crate::progprops::in_flight_set(Some("C05 case"));
